@@ -105,6 +105,9 @@ impl Prop for C10 {
                 if o.case.rendered[0].text.contains("`include <") {
                     st.class("angle-bracket include");
                 }
+                if o.case.reincludes > 0 {
+                    st.class("same file included twice");
+                }
                 if matches!(o.case.fault, Some(crate::ppm::gen::Fault::MissingInclude(_))) {
                     st.class("missing include file");
                 }
